@@ -236,6 +236,12 @@ def gen_world(rng, n_inputs=None, n_formulas=None, sheets=None, names=True,
     if spelling is None:
         spelling = rng.random() < 0.15
     sheet_list = SHEETS[:nsheets]
+    odd = set()
+    if nsheets == 3 and rng.random() < 0.3:
+        # a sheet whose name contains a character that means something
+        # elsewhere in an address; it is only referred to from itself
+        sheet_list = sheet_list[:2] + [rng.choice(['US$', 'Net$Cost'])]
+        odd = {sheet_list[2]}
     W = {s: rng.choice([1, 2, 2, 3, 4]) for s in sheet_list}
     count = {s: 0 for s in sheet_list}
     cells, deps, level, order = {}, {}, {}, []
@@ -289,7 +295,8 @@ def gen_world(rng, n_inputs=None, n_formulas=None, sheets=None, names=True,
     wnames = {}
     if names and rng.random() < 0.6:
         for _ in range(rng.randint(1, 3)):
-            wnames[name_pool.pop()] = rng.choice(order)
+            wnames[name_pool.pop()] = rng.choice(
+                [a for a in order if a.split('!')[0] not in odd] or order)
 
     def ref(frm_sheet, a):
         s, c = a.split('!')
@@ -346,7 +353,11 @@ def gen_world(rng, n_inputs=None, n_formulas=None, sheets=None, names=True,
             made += 1
             continue
         sheet = rng.choice(sheet_list)
-        cands = [a for a in order if level[a] < max_depth]
+        cands = [a for a in order if level[a] < max_depth
+                 and (a.split('!')[0] not in odd
+                      or a.split('!')[0] == sheet)]
+        if not cands:
+            cands = [a for a in order if a.split('!')[0] not in odd] or order
         # bias to recent cells so that chains get deep
         def pick():
             if rng.random() < 0.55:
@@ -355,7 +366,7 @@ def gen_world(rng, n_inputs=None, n_formulas=None, sheets=None, names=True,
         a_, b_, c_ = pick(), pick(), pick()
         if rng.random() < 0.08:
             # reference to a cell that is stored nowhere (reads as blank)
-            c_ = f'{rng.choice(sheet_list)}!Z9'
+            c_ = f'{rng.choice([x for x in sheet_list if x not in odd])}!Z9'
             if rng.random() < 0.5:
                 a_, c_ = c_, a_
         used = []
@@ -365,6 +376,8 @@ def gen_world(rng, n_inputs=None, n_formulas=None, sheets=None, names=True,
             # rectangle on some sheet covering existing cells (sometimes one
             # position beyond -> blank placeholder created by build_ranges)
             s = sheet if rng.random() < 0.6 else rng.choice(sheet_list)
+            if s in odd and s != sheet:
+                s = sheet
             if count[s] > 0:
                 w = W[s]
                 rows = (count[s] + w - 1) // w
@@ -448,14 +461,15 @@ def gen_world(rng, n_inputs=None, n_formulas=None, sheets=None, names=True,
             copyable.append({'sheet': sheet, 'text': cells[fa],
                              'coords': coords,
                              'range': rng_ref[0] if rng_ref else None})
-        if names and name_pool and rng.random() < 0.12:
+        if names and name_pool and rng.random() < 0.12 \
+                and sheet not in odd:
             wnames[name_pool.pop()] = fa
         made += 1
 
     if sparse:
         # a long, mostly empty column with a formula over all of it: the
         # MAX_EMPTY cut-off and blank placeholders come into play
-        s = rng.choice(sheet_list)
+        s = rng.choice([x for x in sheet_list if x not in odd])
         L = rng.randint(6, 16)
         filled = sorted(rng.sample(range(L), rng.randint(1, 3)))
         members = [f'{s}!H{r + 1}' for r in range(L)]
@@ -466,7 +480,7 @@ def gen_world(rng, n_inputs=None, n_formulas=None, sheets=None, names=True,
             deps[a] = []
             order.append(a)
         reserved.update(m for m in members if m not in cells)
-        sheet = rng.choice(sheet_list)
+        sheet = rng.choice([x for x in sheet_list if x not in odd])
         fa = place(sheet)
         rr = f'H1:H{L}' if sheet == s and not qualify_all else f'{s}!H1:H{L}'
         cells[fa] = '=' + rng.choice(
@@ -484,7 +498,7 @@ def gen_world(rng, n_inputs=None, n_formulas=None, sheets=None, names=True,
                     [999, -1, 'stale', 0, True, 3.25, None]))
     rnames = {}
     if range_names and rng.random() < 0.5:
-        s = rng.choice(sheet_list)
+        s = rng.choice([x for x in sheet_list if x not in odd])
         if count[s] >= 2:
             w = W[s]
             rows = (count[s] + w - 1) // w
